@@ -8,13 +8,16 @@
                 kind  doc | emptyFile | corrupt            members with bytes of their own
                       nostream                             7z entry listed as a file but without data stream
                       dir hidden fork nested unsup oversize symlink hardlink chardev fifo    skip kinds
+                      linkPrev symPrev    tar hard / symbolic link whose target is the PRECEDING member
+                                          (the host-targeted symlink / hardlink kinds name a canary host file)
                 nc    name class:  plain nested unicode | absolute dotdot dotdotIn backslash drive empty
                       long hostname      (POSIX host: backslash and drive letters are ordinary characters)
      consumer = Exhaust | CloseAfter(k) | Abandon(k) | Throw(k)      (hist; executed literally by the binding)
      state    = gen   fresh | running | suspended | exhausted | closed | failed | collected
                 tmp   none | created | removed                       the private temporary directory
                 fs    set of effects <<op, class>>, class \in {InsideTmp, TmpRootItself, Outside}
-                results  sequence of [m |-> member index, src |-> "archive" | "host"]
+                results  sequence of [m |-> member index, src |-> "archive" | "host",
+                                      own |-> set of members whose content (token words) the result carries]
 
    ALGORITHM PART (one action per code step):
      GStart / GMkdtemp      _extract_from_{zip,tar,7z}_optimized: open; 7z: tempfile.TemporaryDirectory()
@@ -34,6 +37,8 @@
      "NoCleanupOnEarlyExit"    temp dir not tied to the generator's frame (mkdtemp without context manager)
      "ExtractToCwd"            tar members extracted to the working directory instead of read in memory
      "YieldHidden"             hidden-member rule dropped
+     "FollowHardlinks"         tar hard links pass the regular-file test: tarfile.extractfile resolves the
+                               link to its target's data, the skip rules see only the link's own name
 
    PROPERTIES.  Inv_Confined, Inv_Cleanup, Inv_SkipRules, Inv_Closed (C09); Inv_Members, Inv_Isolation (C10).
 
@@ -48,7 +53,7 @@ EXTENDS Naturals, Sequences, FiniteSets, TLC
 CONSTANTS Fmts, MemberTypes, MaxMembers, MaxK, Deviations
 
 DeviationNames == {"RereadUnchecked", "MemberErrorKillsArchive", "FolderErrorKillsArchive",
-                   "NoCleanupOnEarlyExit", "ExtractToCwd", "YieldHidden"}
+                   "NoCleanupOnEarlyExit", "ExtractToCwd", "YieldHidden", "FollowHardlinks"}
 ASSUME Deviations \subseteq DeviationNames
 Dev(d) == d \in Deviations
 
@@ -58,8 +63,10 @@ VARIABLES fmt, ms, nd, hist,            \* the case: format, members, expected r
 vars == <<fmt, ms, nd, hist, gen, tmp, fs, results, got, pc, idx, cause>>
 
 (* ------------------------------------------------------------------ vocabulary *)
+LinkPrev    == {"linkPrev", "symPrev"}
 SkipKinds   == {"dir", "hidden", "fork", "nested", "unsup", "oversize", "symlink", "hardlink", "chardev", "fifo"}
-TarOnly     == {"symlink", "hardlink", "chardev", "fifo"}
+               \cup LinkPrev
+TarOnly     == {"symlink", "hardlink", "chardev", "fifo"} \cup LinkPrev
 BenignNC    == {"plain", "nested", "unicode"}
 HostileNC   == {"absolute", "dotdot", "dotdotIn", "backslash", "drive", "empty", "long", "hostname"}
 Classes     == {"InsideTmp", "TmpRootItself", "Outside"}
@@ -84,6 +91,16 @@ Contribution(m) ==
     IF m.kind \in SkipKinds THEN "mustnot"
     ELSE IF m.kind \in {"doc", "emptyFile"} /\ m.nc \in BenignNC THEN "must"
     ELSE "dontcare"
+(* links inside the archive: the member a link finally designates (0 = none: first member, host target) *)
+RECURSIVE Resolve(_, _)
+Resolve(mm, j) == IF mm[j].kind \in LinkPrev THEN (IF j = 1 THEN 0 ELSE Resolve(mm, j - 1)) ELSE j
+(* position-aware oracle: a link to a hidden / unsupported / oversize / ... member must not produce results
+   (its content would be the skipped member's); a link to a document is DON'T-CARE (the documentation does not
+   say whether links inside an archive are followed) *)
+ContribAt(mm, j) ==
+    IF mm[j].kind \in LinkPrev
+    THEN IF Resolve(mm, j) # 0 /\ mm[Resolve(mm, j)].kind \in {"doc", "emptyFile", "corrupt"} THEN "dontcare" ELSE "mustnot"
+    ELSE Contribution(mm[j])
 (* an archive that carries a hostile member name may be refused as a whole (DON'T-CARE: today only the
    7z path does so, for names _safe_join rejects or the file system cannot create) *)
 HostileFail(f, mm) == \E n \in 1..Len(mm) : mm[n].nc \in HostileNC
@@ -98,7 +115,7 @@ MT_C09 == ({"doc"} \X (BenignNC \cup HostileNC))
           \cup ((SkipKinds \ {"dir"}) \X {"plain"}) \cup {<<"dir", "nested">>, <<"hidden", "nested">>}
 MT_C09s == ({"doc"} \X {"plain", "nested", "absolute", "dotdot", "empty", "long"})      \* representatives
           \cup ({"nostream"} \X {"plain", "absolute"})
-          \cup ({"hidden", "fork", "nested", "unsup", "oversize", "symlink", "fifo"} \X {"plain"})
+          \cup ({"hidden", "fork", "nested", "unsup", "oversize", "symlink", "fifo", "linkPrev"} \X {"plain"})
           \cup {<<"hidden", "nested">>}
 MT_C10 == {"doc", "emptyFile", "corrupt", "dir", "hidden", "fork", "nested", "unsup"} \X {"plain"}
 Histories == {[t |-> "Exhaust", k |-> 0]}
@@ -167,7 +184,11 @@ GExtract ==
                       /\ idx' = idx + 1 /\ UNCHANGED <<gen, tmp, pc, cause>>
     /\ UNCHANGED <<fmt, ms, nd, hist, results, got>>
 
-Yield(src) == /\ results' = Append(results, [m |-> idx, src |-> src])
+YieldOwn(src, own) ==
+              /\ results' = Append(results, [m |-> idx, src |-> src, own |-> own])
+              /\ got' = got + 1 /\ gen' = "suspended" /\ idx' = idx + 1
+              /\ UNCHANGED <<tmp, pc, cause>>
+Yield(src) == /\ results' = Append(results, [m |-> idx, src |-> src, own |-> IF src = "archive" THEN {idx} ELSE {}])
               /\ got' = got + 1 /\ gen' = "suspended" /\ idx' = idx + 1
               /\ UNCHANGED <<tmp, pc, cause>>
 Skip == idx' = idx + 1 /\ UNCHANGED <<gen, tmp, fs, results, got, pc, cause>>
@@ -180,7 +201,10 @@ GLoop ==
             THEN IF Dev("ExtractToCwd") /\ fmt = "tar" /\ m.kind \in {"symlink", "hardlink"}
                  THEN fs' = fs \cup {<<"link", "Outside">>} /\ idx' = idx + 1
                       /\ UNCHANGED <<gen, tmp, results, got, pc, cause>>
-                 ELSE Skip
+                 ELSE IF /\ Dev("FollowHardlinks") /\ fmt = "tar" /\ m.kind = "linkPrev"
+                         /\ Resolve(ms, idx) # 0 /\ HasData(ms[Resolve(ms, idx)])
+                      THEN UNCHANGED fs /\ YieldOwn("archive", {Resolve(ms, idx)})   \* the target's bytes, the link's label
+                      ELSE Skip
             ELSE IF fmt # "7z"
                  THEN IF m.kind = "corrupt"
                       THEN IF Dev("MemberErrorKillsArchive") /\ fmt = "zip"
@@ -206,7 +230,9 @@ Spec == Init /\ [][Next]_vars
 (* ------------------------------------------------------------------ properties *)
 Inv_Confined  == \A e \in fs : e[2] # "Outside"
 Inv_Cleanup   == gen \in Finished => tmp \in {"none", "removed"}
-Inv_SkipRules == \A n \in 1..Len(results) : results[n].m # 0 => Contribution(ms[results[n].m]) # "mustnot"
+Inv_SkipRules == \A n \in 1..Len(results) :
+                    /\ results[n].m # 0 => ContribAt(ms, results[n].m) # "mustnot"
+                    /\ \A j \in results[n].own : ContribAt(ms, j) # "mustnot"      \* nor their content under another label
                  \* (m = 0 only in recorded traces: a result that carries no member's path - C10's subject)
 Inv_Closed    == /\ \A n \in 1..Len(results) : results[n].src = "archive"
                  /\ <<"read", "Outside">> \notin fs
@@ -215,9 +241,9 @@ Count(j) == Cardinality({ n \in 1..Len(results) : results[n].m = j })
 LastM == IF results = <<>> THEN 0 ELSE results[Len(results)].m
 Inv_Members ==
     /\ \A n \in 1..(Len(results) - 1) : results[n].m <= results[n + 1].m            \* archive order
-    /\ \A j \in 1..Len(ms) : Count(j) <= (IF Contribution(ms[j]) = "must" THEN nd[j] ELSE Count(j))
+    /\ \A j \in 1..Len(ms) : Count(j) <= (IF ContribAt(ms, j) = "must" THEN nd[j] ELSE Count(j))
     /\ \A j \in 1..Len(ms) :                                                         \* nothing lost
-         (Contribution(ms[j]) = "must" /\ (gen = "exhausted" \/ j < LastM)) => Count(j) = nd[j]
+         (ContribAt(ms, j) = "must" /\ (gen = "exhausted" \/ j < LastM)) => Count(j) = nd[j]
 (* a corrupt or unsupported member affects only itself: the archive as a whole fails only because the
    consumer threw, or (7z) because a hostile name makes extraction refuse *)
 FailAllowed == \/ cause = "consumer"
